@@ -147,3 +147,104 @@ Proof.
   apply (hash_refines_all_histories BS bs0 _ _ nv_hash _ _ (c_wf0 nv_cfg) _ _ _ _ (calc_capacity (c_pol nv_cfg) (c_cap nv_cfg)) _ _ _
            (momo_instances_ok nv_cfg nv_cfg_valid) nv_ops).
 Qed.
+
+(* ================= "Hash table is full" is unreachable for momo's probing schemes ================= *)
+From C01 Require ProbeSeq.
+
+Lemma path_ext start n1 n2 hc bc : (forall i p, n1 i bc p = n2 i bc p) -> forall p, path start n1 hc bc p = path start n2 hc bc p.
+Proof. intros H. induction p; simpl; auto. rewrite IHp. apply H. Qed.
+
+Lemma path_probe_index nx n hc p : path start_fn nx hc (2 ^ n) p = ProbeSeq.probe_index nx n (start_fn hc (2 ^ n)) p.
+Proof. induction p; simpl; auto. rewrite IHp. reflexivity. Qed.
+
+Definition lin_next (i bc p : Z) : Z := Z.land (wrapU 64 (i + 1)) (wrapU 64 (bc - 1)).
+
+Lemma lin_path hc log : 0 <= log <= 63 -> forall p,
+  path start_fn lin_next hc (2 ^ log) p = (start_fn hc (2 ^ log) + Z.of_nat p) mod 2 ^ log.
+Proof.
+  intros Hl. pose proof (pow2_le_63 log Hl) as Hp.
+  assert (H64 : 2 ^ 63 < 2 ^ 64) by (apply Z.pow_lt_mono_r; lia).
+  assert (Hs : 0 <= start_fn hc (2 ^ log) < 2 ^ log) by (unfold start_fn, Gen_BucketBase.GetStartBucketIndex; apply land_mask_range; auto).
+  induction p.
+  - simpl. rewrite Z.add_0_r. symmetry. apply Z.mod_small. exact Hs.
+  - simpl path. rewrite IHp. unfold lin_next. rewrite mask_val by auto. rewrite Z.land_ones by lia.
+    assert (Hm : 0 <= (start_fn hc (2 ^ log) + Z.of_nat p) mod 2 ^ log < 2 ^ log) by (apply Z.mod_pos_bound; lia).
+    rewrite wrapU_small by lia. rewrite Z.add_mod_idemp_l by lia. f_equal. lia.
+Qed.
+
+Lemma lin_cover hc log b : 0 <= log <= 63 -> 0 <= b < 2 ^ log ->
+  exists p : nat, Z.of_nat p < 2 ^ log /\ path start_fn lin_next hc (2 ^ log) p = b.
+Proof.
+  intros Hl Hb. pose proof (pow2_le_63 log Hl) as Hp.
+  set (s0 := start_fn hc (2 ^ log)).
+  assert (Hd : 0 <= (b - s0) mod 2 ^ log < 2 ^ log) by (apply Z.mod_pos_bound; lia).
+  exists (Z.to_nat ((b - s0) mod 2 ^ log)). rewrite Z2Nat.id by lia. split; [lia|].
+  rewrite lin_path by auto. rewrite Z2Nat.id by lia. fold s0.
+  rewrite Z.add_mod_idemp_r by lia. replace (s0 + (b - s0)) with b by lia. apply Z.mod_small. exact Hb.
+Qed.
+
+Theorem momo_probe_cover probing hc log b : 0 <= log <= max_log -> 0 <= b < 2 ^ log ->
+  exists p : nat, Z.of_nat p < 2 ^ log /\ path start_fn (next_fn probing) hc (2 ^ log) p = b.
+Proof.
+  intros Hl Hb. unfold max_log in Hl. assert (Hl' : 0 <= log <= 63) by lia.
+  assert (Hs : 0 <= start_fn hc (2 ^ log) < 2 ^ log) by (unfold start_fn, Gen_BucketBase.GetStartBucketIndex; apply land_mask_range; auto).
+  unfold next_fn. destruct (probing =? 0); [|destruct (probing =? 1); [|destruct (probing =? 2)]].
+  - destruct (lin_cover hc log b Hl' Hb) as [p [H1 H2]]. exists p. split; [exact H1|exact H2].
+  - destruct (lin_cover hc log b Hl' Hb) as [p [H1 H2]]. exists p. split; [exact H1|exact H2].
+  - destruct (ProbeSeq.open2n2_probe_covers log _ b Hl' Hs Hb) as [p [H1 H2]]. exists p. split; [exact H1|].
+    rewrite path_probe_index. exact H2.
+  - destruct (ProbeSeq.open8_probe_covers log _ b Hl' Hs Hb) as [p [H1 H2]]. exists p. split; [exact H1|].
+    rewrite path_probe_index. exact H2.
+Qed.
+
+Lemma frac_le x a b : 0 <= x -> 0 < b -> a <= b -> x * a / b <= x.
+Proof. intros. apply Z.div_le_upper_bound; [lia|]. nia. Qed.
+
+(* the hand-mirrored CalcCapacity never promises more items than the table has slots *)
+Theorem momo_calc_le pol cap log : 1 <= cap -> 0 <= log -> calc_capacity pol cap (2 ^ log) <= cap * 2 ^ log.
+Proof.
+  intros Hc Hl. assert (Hp : 0 < 2 ^ log) by (apply Z.pow_pos_nonneg; lia). set (bc := 2 ^ log) in *.
+  unfold calc_capacity.
+  destruct (pol =? 0).
+  - destruct (Z.eqb_spec cap 1); [subst; pose proof (frac_le bc 5 8); lia|].
+    destruct (Z.eqb_spec cap 2); [subst; assert (bc / 2 <= bc) by (apply Z.div_le_upper_bound; lia); lia|]. nia.
+  - assert (Hx : 0 <= bc * cap) by nia.
+    destruct (pol =? 1); [pose proof (frac_le (bc * cap) 11 12); lia|].
+    destruct (pol =? 2); [pose proof (frac_le (bc * cap) 5 6); lia|].
+    destruct (cap =? 7); [pose proof (frac_le (bc * cap) 13 14); lia|pose proof (frac_le (bc * cap) 11 12); lia].
+Qed.
+
+(* every reachable state of every valid configuration keeps Inv and CapOK, for every hash function *)
+Theorem momo_reachable_all_histories c (h : Z -> Z) : cfg_valid c -> forall os,
+  Reach BS bs0 (decode_fn (c_bound c)) h (c_cap c) (c_unlimited c) (c_wf0 c) start_fn (next_fn (c_probing c)) max_log
+        (Binv_of (c_bound c)) (fst (run_gen c h init_cfg os)).
+Proof.
+  intros V os. unfold run_gen, init_cfg.
+  apply (reachable_all_histories BS bs0 _ _ h _ _ (c_wf0 c) _ _ _ _ (calc_capacity (c_pol c) (c_cap c)) _ _ _ (momo_instances_ok c V));
+    intros; first [apply momo_probe_cover; auto | apply momo_calc_le; [apply V|lia]].
+Qed.
+
+(* in such a state an insert of an absent key never throws "Hash table is full" (bounded and unbounded buckets alike) *)
+Theorem momo_never_table_full c (h : Z -> Z) : cfg_valid c -> forall s k v bud s',
+  Reach BS bs0 (decode_fn (c_bound c)) h (c_cap c) (c_unlimited c) (c_wf0 c) start_fn (next_fn (c_probing c)) max_log
+        (Binv_of (c_bound c)) s ->
+  step_gen c h s (OInsert k v bud) = (s', RExn) ->
+  ~ (count s < capacity s) /\
+  (calc_capacity (c_pol c) (c_cap c) (2 ^ newLog BS (c_logStart c) (shift_fn (c_pol c) (c_cap c)) (gens s)) <= count s \/
+   max_log < newLog BS (c_logStart c) (shift_fn (c_pol c) (c_cap c)) (gens s)).
+Proof.
+  intros V s k v bud s' HR H. unfold step_gen in H.
+  eapply (never_table_full BS bs0 _ _ h _ _ (c_wf0 c) _ _ _ _ (calc_capacity (c_pol c) (c_cap c)) _ _ _ (momo_instances_ok c V)); eauto;
+    intros; first [apply momo_probe_cover; auto | apply momo_calc_le; [apply V|lia]].
+Qed.
+
+(* two containers + holder, every valid configuration, every hash function, every history without a throwing MergeTo *)
+Theorem momo_world_refines_all_histories c (h : Z -> Z) : cfg_valid c -> forall os,
+  no_merge_exn os (snd (wrun_gen c h winit_cfg os)) ->
+  WR BS bs0 (decode_fn (c_bound c)) h (c_cap c) (c_unlimited c) (c_wf0 c) start_fn (next_fn (c_probing c)) max_log (Binv_of (c_bound c))
+     (fst (wrun_gen c h winit_cfg os)) (fst (wspec_run ([], [], None) os (snd (wrun_gen c h winit_cfg os)))) /\
+  Forall2 out_equiv (snd (wrun_gen c h winit_cfg os)) (snd (wspec_run ([], [], None) os (snd (wrun_gen c h winit_cfg os)))).
+Proof.
+  intros V os. unfold wrun_gen, winit_cfg.
+  apply (world_refines_all_histories BS bs0 _ _ h _ _ (c_wf0 c) _ _ _ _ (calc_capacity (c_pol c) (c_cap c)) _ _ _ (momo_instances_ok c V)).
+Qed.
